@@ -1,7 +1,7 @@
 from propcfg.common import *
 
 CFG = {
-    "disabled": True,
+    "disabled": False,
     "props": "Props/C11.v",
     "corr": ["Corr/StreamCorr.v"],
     "engines": [("stream", [])],
